@@ -185,3 +185,14 @@ META.update({
         note="Real client and real gateway session wired together in one testing/synctest bubble (verif-tagged hooks for dial and session start); the broker model (harness/e2e) and the reference matcher are trusted. Sleeps stay below RetryDelay so the C11 known finding does not interfere.",
         technique="model-based end-to-end PBT (API-call sequences) against a broker reference model; virtual time"),
 })
+CHECKS["C16"] = dict(parts=[part("delivery-under-loss", "e2e", "TestC16", 2000, 150_000)])
+CHECKS["C32"] = dict(parts=[part("routing-consistent", "e2e", "TestC32", 2000, 150_000)])
+_E2E_NOTE = "Real client and real gateway session wired together in one testing/synctest bubble (verif-tagged hooks for dial and session start), conforming broker model behind the gateway (harness/e2e, trusted)."
+META.update({
+    "C16": dict(
+        text="Exploration: generated fault plans per datagram type of the QoS 1 and QoS 2 delivery flows (REGISTER/REGACK step included): losses of requests and acknowledgements within the retry budget, or beyond it, and duplicates with delays up to 25 s, between the real gateway and the real subscribed client; oracle: within budget the handler runs (QoS 1: at least once, broker gets exactly one PUBACK; QoS 2: exactly once, the exchange completes at the broker), every retransmission repeats message ID, payload and sets DUP, and a step whose budget is exceeded sends exactly RetryCount+1 copies and then stays silent.",
+        note=_E2E_NOTE, technique="fault-injection PBT (loss/duplication plans per flow step) on a virtual clock; delivery/ack model as oracle"),
+    "C32": dict(
+        text="Exploration: generated shared predefined configurations (overlaps and shadowing between '*' and client entries, client inside/outside the map) and operations with predefined IDs, 2-octet names over all valid byte values, and the bisquitt-pub/-sub decision logic; oracle: the broker sees exactly the topic name the client meant by its own lookup, and the handler is told exactly the broker's topic.",
+        note=_E2E_NOTE, technique="end-to-end PBT; oracle = name-meant vs name-seen equality"),
+})
